@@ -241,6 +241,27 @@ class Weaver:
             if hname == it.name:
                 continue
             cands = [f for f in rs.all_fns(s, m) if f.name == hname]
+            if len(cands) > 1:
+                # several functions of that name in the file: for a `self.X(..)` / `Self::X(..)` call the one meant is a method of the
+                # same self type as the function under contract
+                def self_type(off):
+                    best = None
+                    def walk(lo, hi):
+                        nonlocal best
+                        for it2 in rs.items(s, lo, hi, m):
+                            if it2.body is not None and it2.body[0] <= off < it2.body[1]:
+                                if it2.kind == 'impl':
+                                    nm = re.sub(r'^impl(\s*<[^>]*>)?\s*', '', it2.name)
+                                    nm = nm.split(' for ')[-1]
+                                    best = re.sub(r'<.*$', '', nm).strip()
+                                if it2.kind in ('impl', 'mod', 'trait'):
+                                    walk(it2.body[0], it2.body[1])
+                    walk(0, len(s))
+                    return best
+                want = self_type(it.start)
+                same = [f for f in cands if want is not None and self_type(f.start) == want]
+                if len(same) == 1:
+                    cands = same
             if len(cands) != 1:
                 continue
             try:
